@@ -411,5 +411,35 @@ theorem add_twice {s s' : Snap} {n syn syn2 : Node} {f2o f2o2 : SlotMap} {data d
   obtain ⟨m, hm⟩ := lookup_after_add_total hok h
   exact ⟨m, by unfold add; rw [hm]⟩
 
+/-! ## the union-find write of an insertion is a valid `alloc` write of the write model (`Model/UfWrite.lean`) -/
+
+theorem wfb_of_wf : ∀ (m : SlotMap), WF m → wfb m = true
+  | [], _ => rfl
+  | [_], _ => rfl
+  | a :: b :: t, h => by
+    rw [wf_cons] at h
+    simp only [wfb, Bool.and_eq_true, decide_eq_true_eq]
+    exact ⟨h.1 b (List.mem_cons_self ..), wfb_of_wf (b :: t) h.2⟩
+
+theorem identity_isPartialId (F : List Nat) : isPartialId (identity F) = true := by
+  rw [isPartialId_iff]
+  intro p hp
+  have h1 : get (identity F) p.1 = some p.2 := (get_eq_some_iff (wf_identity F) p.1 p.2).mpr hp
+  rw [get_identity] at h1
+  split at h1
+  · simpa using h1
+  · simp at h1
+
+/-- the table after an insertion is the table before with one write that passes the guard of the write model: everything
+`Proofs/UfWrite.lean` proves of valid writes (`write_inv`, `write_redirect`, `writes_monotone`) applies to insertions -/
+theorem addNew_is_valid_write {s s' : Snap} {n syn : Node} {f2o : SlotMap} {data : String} {a : AppId}
+    (h : addNew s n f2o syn data = some (s', a)) :
+    validWrite s.uf s.uf.length { id := s.uf.length, m := identity (keys f2o) } = true ∧
+    s'.uf = ufSet s.uf s.uf.length { id := s.uf.length, m := identity (keys f2o) } := by
+  refine ⟨?_, ?_⟩
+  · unfold validWrite
+    simp only [wfb_of_wf _ (wf_identity _), if_true, beq_self_eq_true, identity_isPartialId, Bool.and_self]
+  · rw [addNew_uf h]; unfold ufSet; simp
+
 end Snap
 end SV
